@@ -294,6 +294,23 @@ pub fn accepted_low_level(level: usize, mut f: impl FnMut(u64, &[u8])) -> u64 {
         f(n, &p);
         n += 1;
     }
+    // names that reach exactly 253, 254 and 255 bytes only once their pointer is followed
+    for l in [251usize, 252, 253] {
+        let q = name_of_wire_len(l);
+        let mut long = vec![1u8, b'p'];
+        long.extend_from_slice(&q);
+        let mut m = base_msg(&q, T_A, true);
+        m.an.push(a_rec(&long, 1, [1, 2, 3, 4]));
+        m.an.push(name_rec(&q, T_NS, 2, &long));
+        m.ns.push(soa_rec(&q, 3, &long, &long));
+        for st in [Strategy::Max, Strategy::RdataOnly] {
+            let p = encode(&m, st);
+            if wf(&p).is_ok() {
+                f(n, &p);
+                n += 1;
+            }
+        }
+    }
     // RRsets: an owner unrelated to the question written out once and then named by bare pointers, same and
     // different types, different TTLs, with an OPT record before, between and after
     for optpos in 0..4usize {
